@@ -1,0 +1,220 @@
+//go:build verif
+
+package main
+
+import (
+	"encoding/hex"
+	"errors"
+	"fmt"
+	"mltwist/internal/consoleui/verifhook"
+	"mltwist/internal/deps"
+	"mltwist/internal/parser"
+	"mltwist/pkg/model"
+	"os"
+	"strings"
+)
+
+// Disassembler mode of the console UI: listing and navigation (C23, C31).
+//
+//	dis <entry> <n> (<addr> <len> <neffects> EF...)... <k> CMD...
+//	nav <entry> <n> (<addr> <len> <neffects> EF...)... <k> CMD...
+//
+// (the two operations are executed identically; the model driver checks the
+// listing on "dis" lines and the cursor on "nav" lines)
+//
+// builds deps.NewCode(entry, instructions) (instruction syntax of bbparse; the
+// text of an instruction is derived from its address by disText, its bytes by
+// disBytes), opens the real disassembler mode on it and feeds it the k command
+// lines. A CMD is one token: "x:<hex of the line>" or the line itself with
+// every space written as a comma.
+//
+// Result: "err:newcode" or "S | STEP | STEP ..." with
+//
+//	S    := <cursor> L <nlines> (<text hex> m:<mark> <block> <instr>)...
+//	        D <entry> <nblocks> (<Idx> <Begin> <End> <Line(block,0)> <nins>
+//	           (<Idx> <Begin> <text hex> <bytes hex> <LowerBound> <UpperBound>)...)...
+//	STEP := <status> <matches> S      (just "PANIC" for a panicking command, which ends the history)
+//
+// status: ok | msg:<class> (message printed, nil returned) | err:<class>;
+// matches: "-" (not a find command), "E" (pattern does not compile) or one
+// 0/1 digit per listing line BEFORE the command: Go's POSIX regexp applied to
+// the line text with the pattern the user typed.
+
+type disDetails string
+
+func (d disDetails) Name() string   { return string(d) }
+func (d disDetails) String() string { return string(d) }
+
+func disText(addr uint64) string {
+	s := fmt.Sprintf("op%d x%d, x%d, %d", addr%5, addr%32, (addr/4)%32, addr)
+	if addr%11 == 5 {
+		s += ", long_operand"
+	}
+	return s
+}
+
+func disBytes(addr uint64, l int) []byte {
+	bs := make([]byte, l)
+	for i := range bs {
+		bs[i] = byte(addr*3 + uint64(i)*17 + 1)
+	}
+	return bs
+}
+
+func disHex(s string) string {
+	if s == "" {
+		return "-"
+	}
+	return hex.EncodeToString([]byte(s))
+}
+
+func disCmdLine(tok string) string {
+	if strings.HasPrefix(tok, "x:") {
+		bs, err := hex.DecodeString(tok[2:])
+		if err != nil {
+			panic(parseError("bad hex command"))
+		}
+		return string(bs)
+	}
+	return strings.ReplaceAll(tok, ",", " ")
+}
+
+// disErrClass maps the error chain of a command to a small enum.
+func disErrClass(err error) string {
+	var pe verifhook.DisParseError
+	if errors.As(err, &pe) {
+		return "err:parse"
+	}
+	s := err.Error()
+	for _, c := range []struct{ sub, class string }{
+		{"from cannot be an empty line", "emptyfrom"},
+		{"to cannot be an empty line", "emptyto"},
+		{"cannot swap block and an instruction", "blockins"},
+		{"block move failed", "blockmove"},
+		{"instructions cannot be moved among blocks", "amongblocks"},
+		{"instruction move failed", "insmove"},
+		{"line doesn't belong to a block", "noblock"},
+		{"line is not an instruction", "notins"},
+		{"invalid regex", "regex"},
+		{"line number too big", "toobig"},
+		{"offset cannot be negative", "negative"},
+		{"offset is too high", "toohigh"},
+		{"cannot find block at address", "noblockaddr"},
+		{"cannot find instruction at address", "noinsaddr"},
+		{"readline error", "readline"},
+	} {
+		if strings.Contains(s, c.sub) {
+			return "err:" + c.class
+		}
+	}
+	return "err:other"
+}
+
+func disState(sb *strings.Builder, d *verifhook.Dis, code *deps.Code) {
+	n := d.NumLines()
+	fmt.Fprintf(sb, "%d L %d", d.Cursor(), n)
+	for i := 0; i < n; i++ {
+		text, mark, block, instr := d.Line(i)
+		fmt.Fprintf(sb, " %s m:%s %d %d", disHex(text), mark, block, instr)
+	}
+	blocks := code.Blocks()
+	fmt.Fprintf(sb, " D %d %d", code.Entrypoint(), len(blocks))
+	for _, b := range blocks {
+		inss := b.Instructions()
+		fmt.Fprintf(sb, " %d %d %d %d %d", b.Idx(), b.Begin(), b.End(), d.LineOf(b, 0), len(inss))
+		for i, ins := range inss {
+			fmt.Fprintf(sb, " %d %d %s %s %d %d", ins.Idx(), ins.Begin(), disHex(ins.String()),
+				disHex(string(ins.Bytes())), b.LowerBound(i), b.UpperBound(i))
+		}
+	}
+}
+
+// disStep runs one command line; a panic is reported as ok=false.
+func disStep(d *verifhook.Dis, line string) (status string, ok bool) {
+	defer func() {
+		if r := recover(); r != nil {
+			if os.Getenv("VERIF_PANIC_TEXT") != "" {
+				fmt.Fprintf(os.Stderr, "panic on command %q: %v\n", line, r)
+			}
+			status, ok = "PANIC", false
+		}
+	}()
+	printed, err := d.Exec(line)
+	switch {
+	case err != nil:
+		return disErrClass(err), true
+	case strings.Contains(printed, "No line matching regex"):
+		return "msg:nomatch", true
+	}
+	return "ok", true
+}
+
+func init() {
+	register("dis", disOp)
+	register("nav", disOp)
+}
+
+func disOp(t *tokens) string {
+	{
+		entry := t.uint()
+		n := t.int()
+		if n < 0 {
+			panic(parseError("bad instruction count"))
+		}
+		var seq []parser.Instruction
+		for i := 0; i < n; i++ {
+			ins := t.instruction()
+			if len(ins.Bytes) == 0 {
+				// lines.byteStr panics on an instruction without bytes
+				panic(parseError("instruction without bytes"))
+			}
+			ins.Details = disDetails(disText(uint64(ins.Addr)))
+			ins.Bytes = disBytes(uint64(ins.Addr), len(ins.Bytes))
+			seq = append(seq, ins)
+		}
+		k := t.int()
+		if k < 0 {
+			panic(parseError("bad command count"))
+		}
+		var cmds []string
+		for i := 0; i < k; i++ {
+			cmds = append(cmds, disCmdLine(t.next()))
+		}
+
+		code, err := deps.NewCode(model.Addr(entry), seq)
+		if err != nil {
+			return "err:newcode"
+		}
+		d := verifhook.NewDis(code)
+
+		var sb strings.Builder
+		disState(&sb, d, code)
+		for _, c := range cmds {
+			matches := "-"
+			if pat, ok := d.IsFind(c); ok {
+				v, err := d.MatchVector(pat)
+				if err != nil {
+					matches = "E"
+				} else {
+					var mb strings.Builder
+					for _, b := range v {
+						if b {
+							mb.WriteByte('1')
+						} else {
+							mb.WriteByte('0')
+						}
+					}
+					matches = mb.String()
+				}
+			}
+			status, ok := disStep(d, c)
+			if !ok {
+				sb.WriteString(" | PANIC")
+				break
+			}
+			fmt.Fprintf(&sb, " | %s %s ", status, matches)
+			disState(&sb, d, code)
+		}
+		return sb.String()
+	}
+}
